@@ -30,6 +30,22 @@ class Q:
         self.goal = goal
 
 
+
+def zcheck(s, budget_ms):
+    """s.check() with a wall-clock guard: z3's own `timeout` is not always honoured (a check was seen running for half an
+    hour inside preprocessing); after 1.5 x budget + 5 s the context is interrupted and the answer is `unknown`."""
+    import threading
+    t = threading.Timer(1.5 * budget_ms / 1000.0 + 5.0, s.ctx.interrupt)
+    t.daemon = True
+    t.start()
+    try:
+        return s.check()
+    except z3.Z3Exception:
+        return z3.unknown
+    finally:
+        t.cancel()
+
+
 def conjuncts(g):
     if z3.is_and(g):
         out = []
@@ -150,7 +166,7 @@ def check_qf(q, timeout_ms):
             s.set(k_, v_)
         for a in ground + insts + neg:
             s.add(a)
-        r = s.check()
+        r = zcheck(s, max(200, int(timeout_ms * share)))
         if r != z3.unknown:
             break
     if os.environ.get('PYVC_DEBUGQF') and r != z3.unsat:
@@ -235,7 +251,7 @@ def check_nnf(q, timeout_ms, rounds=4):
     s.set('smt.mbqi', False)
     for a in ground:
         s.add(a)
-    r = s.check()
+    r = zcheck(s, timeout_ms)
     return 'unsat' if r == z3.unsat else ('sat' if r == z3.sat else 'unknown')
 
 
@@ -266,7 +282,7 @@ def solve1(q, timeout_ms=10000, use_cvc5=True, full=True):
     for a in definition_axioms():
         s.add(a)
     s.add(z3.Not(q.goal))
-    r2 = s.check()
+    r2 = zcheck(s, timeout_ms)
     if r2 == z3.unsat:
         return dict(status='proved', backend='z3', time=time.time() - t0)
     if r2 == z3.sat:
@@ -417,7 +433,7 @@ def find_range(A, t, timeout_ms):
             if not z3.is_quantifier(a):
                 s.add(a)
         s.add(z3.Or(t < lo, t > hi))
-        if s.check() == z3.unsat:
+        if zcheck(s, 1000) == z3.unsat:
             return lo, hi
     return None
 
@@ -440,7 +456,7 @@ def solve_split(q, hints, timeout_ms, use_cvc5, budget):
                 if not z3.is_quantifier(a):
                     s.add(a)
             s.add(z3.Or(t < lo, t > hi))
-            if s.check() == z3.unsat:
+            if zcheck(s, 1000) == z3.unsat:
                 rng = (lo, hi)
         if rng is None:
             rng = find_range(A, t, timeout_ms)
@@ -516,7 +532,7 @@ def solve(ob, timeout_ms=10000, use_cvc5=True):
         s.set('timeout', timeout_ms)
         for a in ob.assumptions:
             s.add(a)
-        r = s.check()
+        r = zcheck(s, timeout_ms)
         st = 'refuted' if r == z3.sat else ('proved' if r == z3.unsat else 'unknown')
         return dict(status=st, backend='z3', time=time.time() - t0)
     r = solve_any(q, list(getattr(ob, 'splits', None) or []), timeout_ms, use_cvc5, [MAX_COMBOS])
